@@ -68,6 +68,7 @@ AuthJoin(st, e, R) ==
   ELSE IF jr = "public" THEN Allow("J6")
   ELSE Reject("J7")
 
+TpiKeys(ev) == {ev.c.tpikeys.top} \cup ev.c.tpikeys.list
 AuthInvite(st, e, R) ==
   LET tgt == e.target  t == e.c.tpi IN
   IF t.present THEN
@@ -76,7 +77,9 @@ AuthInvite(st, e, R) ==
        ELSE IF t.mxid # tgt THEN Reject("I1.4")
        ELSE IF ~Has(st, K("m.room.third_party_invite", t.token)) THEN Reject("I1.5")
        ELSE IF st[K("m.room.third_party_invite", t.token)].sender # e.sender THEN Reject("I1.6")
-       ELSE IF t.sigok THEN Allow("I1.7") ELSE Reject("I1.8")
+       \* "if any signature in signed matches any public key in the m.room.third_party_invite event, allow": the keys of that
+       \* event are its top-level public_key and every entry of its public_keys list
+       ELSE IF t.sigkey \in TpiKeys(st[K("m.room.third_party_invite", t.token)]) THEN Allow("I1.7") ELSE Reject("I1.8")
   ELSE IF Membership(st, e.sender) # "join" THEN Reject("I2")
   ELSE IF Membership(st, tgt) \in {"join", "ban"} THEN Reject("I3")
   ELSE IF UserLevel(st, e.sender, R) >= Field(st, "invite") THEN Allow("I4") ELSE Reject("I5")
